@@ -90,6 +90,7 @@ func main() {
 						c.Fail(ci, "address-differs-from-reference", nil)
 					}
 					n := 1 << uint(g.h)
+					var prevSig, prevCopy []byte
 					for i := 0; i < n; i++ {
 						k := lib
 						if fresh {
@@ -112,6 +113,11 @@ func main() {
 						if !bytes.Equal(m, m0) {
 							c.Fail(ci, "sign-modified-message-buffer", nil)
 						}
+						if prevSig != nil && !bytes.Equal(prevSig, prevCopy) {
+							c.Fail(ci, "earlier-signature-changed-by-later-sign(aliasing)", map[string]any{"config": fmt.Sprint(g), "index": i})
+							break
+						}
+						prevSig, prevCopy = sig, append([]byte(nil), sig...)
 						v1 := xmss.Verify(m, sig, pk)
 						v2 := xmss.VerifyWithCustomWOTSParamW(m, sig, pk, 16)
 						bad := append([]byte(nil), sig...)
